@@ -25,7 +25,7 @@ pub fn rule_breakers(thorough: bool, seed: u64) -> Vec<(Vec<u8>, String)> {
     let mut r = Rng::new(seed ^ 0xABCD);
     let mut g = Gen::new(seed ^ 0x5151);
     let mut res = vec![];
-    let n = if thorough { 4000 } else { 300 };
+    let n = if thorough { 8000 } else { 1500 };
     for _ in 0..n {
         let which = r.below(6);
         let (kind, rule) = match which { 0 => (24, "loc-version"), 1 => (27, "svcb-keys"), 2 => (28, "svcb-keys"), 3 => (38, "nsec-windows"), 4 => (13, "charstr-overrun"), _ => (*r.pick(&[27usize, 38, 10, 19, 21, 26]), "inner-overrun") };
@@ -38,18 +38,23 @@ pub fn rule_breakers(thorough: bool, seed: u64) -> Vec<(Vec<u8>, String)> {
         let mutated = match rule {
             "loc-version" => { b[s] = r.range(1, 255) as u8; true }
             "svcb-keys" | "nsec-windows" => {
-                // find the triples after the name and make the second key <= the first
+                // the (key, length, value) triples after the name: some key (the second, the third, ... the last)
+                // is made equal to the one before it, or one less (so that it may still exceed the FIRST key)
                 let name_end = walker::skip_name(&b, if rule == "svcb-keys" { s + 2 } else { s }).unwrap();
                 let (kw, lw) = if rule == "svcb-keys" { (2usize, 2usize) } else { (1, 1) };
-                if name_end + kw + lw <= s + l {
-                    let vlen = if lw == 2 { u16::from_be_bytes([b[name_end + 2], b[name_end + 3]]) as usize } else { b[name_end + 1] as usize };
-                    let second = name_end + kw + lw + vlen;
-                    if second + kw <= s + l {
-                        let equal = r.chance(1, 2);
-                        for i in 0..kw { b[second + i] = if equal { b[name_end + i] } else { 0 }; }
-                        // strictly smaller or equal to the first key (a first key of 0 can only be equalled)
-                        true
-                    } else { false }
+                let mut at = name_end;
+                let mut starts = vec![];
+                while at + kw + lw <= s + l {
+                    let vlen = if lw == 2 { u16::from_be_bytes([b[at + 2], b[at + 3]]) as usize } else { b[at + 1] as usize };
+                    starts.push(at);
+                    at += kw + lw + vlen;
+                }
+                if starts.len() >= 2 && at == s + l {
+                    let j = 1 + r.below(starts.len() as u64 - 1) as usize;
+                    let prev: u16 = if kw == 2 { u16::from_be_bytes([b[starts[j - 1]], b[starts[j - 1] + 1]]) } else { b[starts[j - 1]] as u16 };
+                    let newk = if prev > 0 && r.chance(1, 2) { prev - 1 } else { prev };
+                    if kw == 2 { b[starts[j]..starts[j] + 2].copy_from_slice(&newk.to_be_bytes()); } else { b[starts[j]] = newk as u8; }
+                    true
                 } else { false }
             }
             "charstr-overrun" => { b[s] = b[s].wrapping_add((l as u8).max(1)); (b[s] as usize) + 1 > l }
@@ -367,7 +372,20 @@ pub fn c09(tier: &str, seed: u64) -> Vec<Case> {
         let ptxt = text::packet(&p);
         let pos = r.below(k as u64 + 1) as usize;
         let rfc_layout = i % 3 == 0;
-        let (b, _) = refenc::encode_packet(&ptxt, Compress::Never, rfc_layout, Some(pos));
+        let (mut b, _) = refenc::encode_packet(&ptxt, Compress::Never, rfc_layout, Some(pos));
+        // the 16 flag bits of the OPT TTL (DO and the reserved ones) as other implementations set them: they are
+        // not the library's to interpret and must not disturb version, response code or anything else
+        if i % 3 == 1 {
+            if let Some(w) = walker::walk(&b) {
+                if let Some(e) = w.sections[2].iter().find(|e| e.typ == 41) {
+                    let t = e.rd_start - 6;
+                    // library layout: the flags are the two high octets; RFC layout: the two low ones
+                    let (hi, lo) = if rfc_layout { (t + 2, t + 3) } else { (t, t + 1) };
+                    b[hi] |= *r.pick(&[0x80u8, 0x80, 0x40, 0xFF]);
+                    if r.chance(1, 2) { b[lo] |= r.next() as u8; }
+                }
+            }
+        }
         let out = parse_out(&b);
         let mut c = Case::new(format!("parse {}", text::hex(&b)), out.clone()).tag(if rfc_layout { "parse-rfc-layout" } else { "parse-lib-layout" }).tag(&format!("opt-at:{}", pos));
         match Packet::parse(&b) {
